@@ -33,6 +33,7 @@ def run(tier):
     exp_t = {t["name"]: t for t in pred["traits"]}
     exp_g = {g["name"]: g for g in pred["groups"]}
     exp_and = {(a["a"], a["b"]): a["r"] for a in pred["ands"]}
+    exp_pred = {x["v"]: x for x in pred.get("preds", [])}
     n = 0
     for x in got:
         n += 1
@@ -47,6 +48,10 @@ def run(tier):
                                 {"edit": e, "observed": x})
                 if e["expect"] == "Invalid" and x[direction] == "Unknown":
                     c.drift("edit '%s': reported Unknown where the model predicts Invalid (not Valid either way)" % x["name"])
+        elif x["kind"] == "pred":
+            e = exp_pred[x["v"]]
+            if x["strict"] != e["strict"] or x["relaxed"] != e["relaxed"]:
+                c.violation("verdict %s: is_valid_strict=%s is_valid_relaxed=%s, expected %s / %s" % (x["v"], x["strict"], x["relaxed"], e["strict"], e["relaxed"]), {"observed": x})
         elif x["kind"] == "none":
             if x["got"] != "Unknown":
                 c.violation("a missing layout description yields %s instead of Unknown (%s)" % (x["got"], x["name"]), {"observed": x})
